@@ -4,6 +4,7 @@ import (
 	"crypto/sha256"
 	"crypto/sha512"
 	"fmt"
+	"math/big"
 
 	"github.com/oasisprotocol/ed25519"
 	ref "github.com/oasisprotocol/ed25519/internal/zzverifref"
@@ -56,6 +57,50 @@ func jobC08x(c *rt.Ctx) {
 		emit("x25519-generic", func() map[string]interface{} {
 			return map[string]interface{}{"scalar": ref.Hex(h[:32]), "point": ref.Hex(pt), "out": ref.Hex(o)}
 		}, o, []byte(fmt.Sprint(e != nil)))
+	}
+	// constructed results (as C11): (scalar, point) pairs whose RFC 7748 result is a chosen u - the
+	// smallest values (the range in which a backend that stops at a partially reduced value differs
+	// from one that reduces fully), the largest ones, and one power of 256 per byte position
+	c.Require("x25519-constructed")
+	var targets []*big.Int
+	for k := int64(1); k < 64; k++ {
+		targets = append(targets, big.NewInt(k), new(big.Int).Sub(ref.P, big.NewInt(k)))
+	}
+	for i := 1; i < 32; i++ {
+		targets = append(targets, new(big.Int).Lsh(big.NewInt(1), uint(8*i)))
+	}
+	twistL := ref.TwistSubgroupOrder()
+	for ti, u := range targets {
+		if !c.Take() {
+			continue
+		}
+		var order *big.Int
+		for _, ord := range []*big.Int{ref.L, twistL} {
+			if _, z := ref.LadderXZ(ord, u); z.Sign() == 0 {
+				order = ord
+				break
+			}
+		}
+		if order == nil {
+			emit("x25519-constructed-skip", func() map[string]interface{} { return map[string]interface{}{"u": u.String()} }, []byte{byte(ti)})
+			continue
+		}
+		h := sha512.Sum512([]byte{0xC8, byte(ti)})
+		sc := h[:32]
+		cl := append([]byte{}, sc...)
+		cl[0] &= 248
+		cl[31] &= 127
+		cl[31] |= 64
+		inv := new(big.Int).ModInverse(new(big.Int).Mod(ref.LE(cl), order), order)
+		P := ref.ToLE(ref.Ladder(inv, u), 32)
+		o, e := X25519(sc, P)
+		var d, in, bp [32]byte
+		copy(in[:], sc)
+		copy(bp[:], P)
+		ScalarMult(&d, &in, &bp)
+		emit("x25519-constructed", func() map[string]interface{} {
+			return map[string]interface{}{"scalar": ref.Hex(sc), "point": ref.Hex(P), "target_u": u.String(), "out": ref.Hex(o), "scalarmult": ref.Hex(d[:])}
+		}, o, d[:], []byte(fmt.Sprint(e != nil)))
 	}
 	lim := 1 << 11
 	if c.Thorough() {
